@@ -177,6 +177,16 @@ def eoq_with_disruptions(fixed_cost, holding_cost, stockout_cost, demand_rate,
 		lo = order_quantity_approx / 10
 		hi = order_quantity_approx * 10
 		order_quantity, cost = golden_section_search(f, lo, hi, verbose=False)
+		# The approximate Q^* can be far from the exact one (e.g., for rare, long disruptions). If the search ends
+		# at an end of the interval, the minimizer lies outside it: move the interval in that direction and search again.
+		for _ in range(50):
+			if order_quantity <= lo * (1 + 1e-3):
+				lo, hi = lo / 10, lo * 2
+			elif order_quantity >= hi * (1 - 1e-3):
+				lo, hi = hi / 2, hi * 10
+			else:
+				break
+			order_quantity, cost = golden_section_search(f, lo, hi, verbose=False)
 
 	return order_quantity, cost
 
